@@ -6,18 +6,21 @@ Patches (for the duration of a `with fake():` block) the module-level names
   ebpfcat.bpf.bpf, ebpfcat.bpf.addrof, ebpfcat.bpf.addressof,
   ebpfcat.arraymap.mmap, ebpfcat.arraymap.cpu_count (= CPUs online),
   ebpfcat.arraymap.open (so that /sys/devices/system/cpu/possible reads as
-  0-(ncpu-1): ncpu is the number of possible CPUs)
+  0-(ncpu-1): ncpu is the number of possible CPUs),
+  ebpfcat.ebpf.os (close() of a fake descriptor closes nothing)
 Every pointer handed to the fake syscall is traced back to the Python buffer
 it came from; a buffer shorter than what the kernel would read or write is
 recorded in .overruns (and the copy is clipped, so the harness survives).
 """
 import ctypes
 import io
+import os
 import struct
 from contextlib import contextmanager
 
 import ebpfcat.arraymap as eb_arraymap
 import ebpfcat.bpf as eb_bpf
+import ebpfcat.ebpf as eb_ebpf
 
 from . import interp
 
@@ -34,6 +37,7 @@ class Fake:
         self.overruns = []
         self.calls = []       # (cmd, fd, detail) for evidence
         self.unknown_ptrs = []
+        self.closed = []      # fake fds handed to os.close
 
     # ------------------------------------------------------------ pointers
     def remember(self, addr, length):
@@ -178,6 +182,13 @@ class Fake:
         if m.kind == "hash":
             e = m.entries.get(key)
             return None if e is None else bytes(e)
+        if m.kind == "prog_array":
+            # user space reads the id of the program in the slot; an empty
+            # slot is ENOENT
+            idx = struct.unpack("<I", key[:4])[0]
+            if idx not in m.progs:
+                return None
+            return struct.pack("<I", m.progs[idx])
         return None
 
     def _set(self, m, key, val, flags):
@@ -310,9 +321,24 @@ def fake(ncpu=4):
                                              getattr(f, "possible_form", 0)))
         return open(path, *args, **kwargs)
     eb_arraymap.open = fake_open
+
+    class _Os:
+        """os for ebpfcat.ebpf: closing a fake program fd closes nothing"""
+        def __getattr__(self, name):
+            return getattr(os, name)
+
+        @staticmethod
+        def close(fd):
+            if fd in f.progs or fd in f.maps:
+                f.closed.append(fd)
+                return
+            os.close(fd)
+    saved_os = eb_ebpf.os
+    eb_ebpf.os = _Os()
     try:
         yield f
     finally:
+        eb_ebpf.os = saved_os
         del eb_arraymap.open
         (eb_bpf.bpf, eb_bpf.addrof, eb_bpf.addressof, eb_arraymap.mmap,
          eb_arraymap.cpu_count) = saved
